@@ -22,12 +22,15 @@ def one_history(args):
         paths, digs = bc.Interner(), bc.Interner()
         projects = []
         expected = []
+        traces = []
         for i, desc in enumerate(hist):
             proj.write_project(desc, w)
             roots = bc.roots_of(desc)
             if premode:
                 bc.bob(w, bc.MODES[premode] + roots)
-            rc, txt = bc.bob(w, bc.MODES[mode] + roots)
+            tf = os.path.join(w, ".bobv-trace.%d" % i)
+            rc, txt = bc.bob(w, bc.MODES[mode] + roots, crash_env={"BOBV_TRACE_FILE": tf})
+            trace = bc.read_trace(tf)
             if rc != 0:
                 rec["steps"].append({"i": i, "rc": rc, "rejected": True, "tail": txt[-400:]})
                 # a project state that does not parse/build is not a build of the history
@@ -61,6 +64,7 @@ def one_history(args):
                         if kind in ("BUILD", "PACKAGE", "CHECKOUT") and act in ("run", "skip"):
                             exp[paths(path)] = (act == "run")
                     expected.append(exp)
+                    traces.append({paths(pth): codes for pth, codes in trace.items()})
                 else:
                     projects = None
             else:
@@ -76,7 +80,7 @@ def one_history(args):
             rec["repeat"] = {"rc": rc, "reran": reran, "reran_checkout": reran_co, "skipped": sum(1 for d in dec if d[2] == "skip")}
             if reran or reran_co:      # deterministic checkouts only
                 rec["violations"].append(("repeated-build-reexecutes", "repeated build re-executed %r" % (reran + reran_co,), {"decisions": dec}))
-        rec["model"] = (projects, expected) if projects else None
+        rec["model"] = (projects, expected, traces) if projects else None
     finally:
         shutil.rmtree(w, ignore_errors=True)
     return rec
@@ -95,8 +99,6 @@ def run(ctx):
     seeds = [ctx.rng.randrange(1 << 30) for _ in range(nh)]
     with ThreadPoolExecutor(max_workers=6) as ex:
         recs = list(ex.map(one_history, [(s, nsteps) for s in seeds]))
-    cases = []
-    meta = []
     for rec in recs:
         for st in rec["steps"]:
             ctx.evaluated()
@@ -113,18 +115,31 @@ def run(ctx):
         for sig, what, detail in rec["violations"]:
             detail = dict(detail); detail["seed"] = rec["seed"]; detail["history"] = rec["hist"]; detail["kinds"] = rec["kinds"]
             ctx.violation(sig, what, detail)
+        if len(ctx.cov["samples"]) < 3:
+            ctx.sample({"seed": rec["seed"], "kinds": rec["kinds"], "steps": rec["steps"], "repeat": rec.get("repeat")})
+    model_correspondence(ctx, recs, "c01")
+
+
+def model_correspondence(ctx, recs, tag):
+    """the Builder model against the recorded histories: which steps run (decision lines) and, per workspace,
+    the sequence of persistent-state operations, prunes and script runs (micro-op trace)"""
+    cases = []
+    tcases = []
+    meta = []
+    for rec in recs:
         if rec.get("model"):
-            projects, expected = rec["model"]
+            projects, expected, traces = rec["model"]
             inp = "[" + ";\n ".join(projects) + "]"
             exp = L.lst([L.lst(["(%d, %s)" % (p, L.B(b)) for p, b in sorted(e.items())]) if e else "(@nil (N * bool))" for e in expected])
             cfg = "release_cfg" if rec["mode"] == "build" else "dev_cfg"
             cases.append(("(%s, %s)" % (cfg, inp), "(%s : list (list (N * bool)))" % exp))
+            tr = L.lst([L.lst(["(%d, %s)" % (p_, L.lst([str(c_) for c_ in cs]) if cs else "(@nil N)") for p_, cs in sorted(t.items())])
+                        if t else "(@nil (N * list N))" for t in traces])
+            tcases.append(("(%s, %s)" % (cfg, inp), "(%s : list (list (N * list N)))" % tr))
             meta.append({"seed": rec["seed"], "kinds": rec["kinds"], "builds": len(projects), "mode": rec["mode"]})
             ctx.count("model-histories")
-        if len(ctx.cov["samples"]) < 3:
-            ctx.sample({"seed": rec["seed"], "kinds": rec["kinds"], "steps": rec["steps"], "repeat": rec.get("repeat")})
     bad, log = coq.run_cases(ctx, bc.REQUIRES, "(fun i => history_runs hash_poly (fst i) (snd i) (fun _ => empty_slot))",
-                             "history_agree", cases, shard=40, tag="c01")
+                             "history_agree", cases, shard=40, tag=tag)
     if bad is None:
         ctx.tie_broken("Builder model evaluation failed", log)
     else:
@@ -133,3 +148,16 @@ def run(ctx):
             vals, _ = coq.eval_terms(ctx, bc.REQUIRES, ["(fun i => history_runs hash_poly (fst i) (snd i) (fun _ => empty_slot)) %s" % cases[i][0]])
             m = dict(meta[i]); m["model_runs"] = vals[0] if vals else None; m["observed_runs"] = cases[i][1]
             ctx.tie_broken("decision-correspondence", m)
+    # micro-op level: the persistent-state operations, prunes and script runs of every workspace in every build,
+    # in order, against the model's cook sequences (what the crash theorems of C05 quantify over)
+    bad, log = coq.run_cases(ctx, bc.REQUIRES, "(fun i => history_traces hash_poly (fst i) (snd i) (fun _ => empty_slot))",
+                             "traces_agree", tcases, shard=40, tag=tag + "t")
+    if bad is None:
+        ctx.tie_broken("Builder model evaluation failed (traces)", log)
+    else:
+        ctx.count("micro-op-trace-histories", len(tcases)); ctx.count("micro-op-trace-histories-agree", len(tcases) - len(bad))
+        ctx.count("micro-op-trace-builds-agree", sum(m["builds"] for i, m in enumerate(meta) if i not in set(bad)))
+        for i in bad[:5]:
+            vals, _ = coq.eval_terms(ctx, bc.REQUIRES, ["(fun i => history_traces hash_poly (fst i) (snd i) (fun _ => empty_slot)) %s" % tcases[i][0]])
+            m = dict(meta[i]); m["model_traces"] = vals[0] if vals else None; m["observed_traces"] = tcases[i][1]
+            ctx.tie_broken("micro-op-correspondence", m)
